@@ -5,6 +5,16 @@ import json, os, sys, subprocess
 V = "/verif"
 CHECKS = {
  # id: (engine, category, technique, text, note, design_ref)
+ "C01": ("E1+E2", "model_checking",
+         "deviation-bounded stateless exploration of real endpoints + explicit-state search of real components vs reference models",
+         "Every execution with <=k dup/delay/drop deviations inside a fault window, for a list of configurations, workloads, reader modes and scripted key updates / window changes / link-MTU changes, is run on the real client and server; every chunk either application obtains is compared with the written pattern (offset-exact, gap-free for ordered, disjoint for unordered), end-of-stream and reset codes are checked, and the transfer must complete. Component-level BFS by replay (Assembler, SendBuffer, RangeSet, Dedup) against reference models is merged into the same evidence.",
+         "Model TLS replaces rustls; payload is a fixed pattern; at most k deviations per execution inside the stated windows.",
+         "DESIGN.md#c01"),
+ "C04": ("E3", "fault_enumeration",
+         "exhaustive duplication / mutation / probe enumeration on real endpoints with wire-level ledger and differential oracle",
+         "Every emitted datagram of each baseline is re-delivered after each delay of a list (pairs in thorough) incl. forced key updates: per frame type the receiver must not process more frames than the sender put on the wire (harness decoder). Every (datagram x mutation) corrupted copy is injected and the run must be application-equivalent to the uninjected run (wire-identical after the handshake). Stateless-reset probes (exact / every bit flipped / other CID / other address / too short), Version Negotiation and forged Retry packets are injected at every step index against both roles.",
+         "Model TLS: keyed 128-bit tag stands in for the AEAD; cross-connection splices are decided under C09.",
+         "DESIGN.md#c04"),
  "C02": ("E3+E2", "fault_enumeration",
          "exhaustive drop-mask enumeration + deviation-bounded stateless exploration of real endpoints",
          "Bounded liveness decided by running the real client and server endpoints under every drop subset of the first K datagrams (both directions) for a list of transport configurations and event-driven workloads, plus every <=k dup/delay/drop deviation in a window; each execution must complete the workload with every stream delivered and acknowledged.",
